@@ -544,6 +544,10 @@ macro_rules! op_assign {
               },
               x => todo!("{:?}", x),
             };
+            if let Err(err) = validate_assign_target(sink, &fxn_input[2..]) {
+              plan.borrow_mut().pop();
+              return Err(err);
+            }
             let plan_brrw = plan.borrow();
             let mut new_fxn = &plan_brrw.last().unwrap();
             new_fxn.solve();
@@ -566,6 +570,36 @@ op_assign!(mul_assign, Mul);
 op_assign!(div_assign, Div);
 //#[cfg(feature = "math_pow")]
 //op_assign!(pow_assign, Pow);
+
+// An indexed assignment writes element by element, so the whole target is
+// checked before the first write: every index must address an element of the
+// sink and a logical index must have one entry per indexed element.
+#[cfg(all(feature = "subscript", feature = "assign"))]
+pub fn validate_assign_target(sink: &Value, ixes: &[Value]) -> MResult<()> {
+  if !matches!(sink.deref_kind(), ValueKind::Matrix(..)) {
+    return Ok(());
+  }
+  #[cfg(feature = "logical_indexing")]
+  validate_logical_index(sink, ixes)?;
+  let shape = sink.shape();
+  let dims: Vec<usize> = match ixes.len() {
+    1 => vec![shape[0] * shape[1]],
+    2 => vec![shape[0], shape[1]],
+    _ => return Ok(()),
+  };
+  for (ix, dim) in ixes.iter().zip(dims.iter()) {
+    let in_bounds = match ix {
+      Value::Index(i) => { let i = *i.borrow(); i >= 1 && i <= *dim },
+      #[cfg(feature = "matrix")]
+      Value::MatrixIndex(m) => m.as_vec().iter().all(|i| *i >= 1 && *i <= *dim),
+      _ => true,
+    };
+    if !in_bounds {
+      return Err(MechError::new(IndexOutOfBoundsError, None).with_compiler_loc());
+    }
+  }
+  Ok(())
+}
 
 #[cfg(all(feature = "subscript", feature = "assign"))]
 pub fn subscript_ref(sbscrpt: &Subscript, sink: &Value, source: &Value, env: Option<&Environment>, p: &Interpreter) -> MResult<Value> {
@@ -746,6 +780,10 @@ pub fn subscript_ref(sbscrpt: &Subscript, sink: &Value, source: &Value, env: Opt
         },
         _ => unreachable!(),
       };
+      if let Err(err) = validate_assign_target(sink, &fxn_input[2..]) {
+        plan.borrow_mut().pop();
+        return Err(err);
+      }
       let plan_brrw = plan.borrow();
       let mut new_fxn = &plan_brrw.last().unwrap();
       new_fxn.solve();
